@@ -15,8 +15,16 @@ Levels  == {"error", "info", "debug"}
 Modes   == {"none", "short-url", "url", "errors"}
 Shapes  == {"alnum", "escape", "colon", "at", "slash", "pct", "long"}
 Traffic == {"plain", "connect", "refused", "upstream-error"}
+\* a configuration that parses but is refused at start-up for another reason: the refusal is part of the start-up log
+\*   dup-exact / dup-host / dup-port / dup-global: a second --credentials entry (with its own password) clashing with the first
+\*   bad-address: an unusable listen address;  missing-pac: a PAC file that does not exist;  key-mismatch: key of another pair
+Refusals == {"none", "dup-exact", "dup-host", "dup-port", "dup-global", "bad-address", "missing-pac", "key-mismatch"}
 
-Cfgs == { c \in [item : Items, form : Forms, level : Levels, mode : Modes, shape : Shapes, traffic : Traffic] :
+Cfgs == { c \in [item : Items, form : Forms, level : Levels, mode : Modes, shape : Shapes, traffic : Traffic, refusal : Refusals] :
+            /\ (c.refusal # "none" => c.traffic = "plain" /\ c.mode = "url")            \* nothing is ever served
+            /\ (c.refusal \in {"dup-exact", "dup-host", "dup-port", "dup-global"} => c.item = "credentials")
+            /\ (c.refusal = "key-mismatch" => c.item \in {"mitm-ca", "tls"})
+            /\ (c.refusal = "missing-pac" => c.item # "proxy")                          \* --pac and --proxy exclude each other
             \* key material has one shape; an upstream error needs an upstream
             /\ (c.item \in {"mitm-ca", "tls"} => c.shape = "long")
             /\ (c.traffic = "upstream-error" => c.item \in {"proxy", "credentials"})
@@ -29,11 +37,15 @@ Rendering(item) == CASE item \in {"basic-auth", "api-basic-auth"} -> "USER:xxxxx
                      [] item \in {"mitm-ca", "tls"} -> "data:xxxxx"
 \* sinks in which the configuration is shown at all
 ShownAtStartup(c) == c.level \in {"info", "debug"}
-Expect(c) == [rendering |-> Rendering(c.item), startupLog |-> ShownAtStartup(c), configz |-> TRUE]
+Expect(c) == [rendering |-> Rendering(c.item), startupLog |-> ShownAtStartup(c) /\ c.refusal = "none", configz |-> c.refusal = "none",
+              refused |-> c.refusal # "none"]
 
 \* always exercised: every item at every log level
-Must == { c \in Cfgs : c.form = "flag" /\ c.mode = "url" /\ c.traffic = "plain"
-                       /\ c.shape = (IF c.item \in {"mitm-ca", "tls"} THEN "long" ELSE "at") }
+Must == { c \in Cfgs : /\ c.mode = "url" /\ c.traffic = "plain"
+                       /\ c.shape = (IF c.item \in {"mitm-ca", "tls"} THEN "long" ELSE "at")
+                       /\ \/ c.form = "flag" /\ c.refusal = "none"
+                          \/ c.refusal \in {"dup-exact", "dup-host", "dup-port", "dup-global"}     \* every form and level
+                          \/ c.refusal \in {"bad-address", "missing-pac", "key-mismatch"} /\ c.form = "flag" /\ c.level = "info" }
 VARIABLE cfg
 Init == cfg \in (IF Sample = 0 THEN Cfgs ELSE Must \cup RandomSubset(Sample, Cfgs))
 Next == FALSE /\ UNCHANGED cfg
